@@ -72,6 +72,8 @@ def filter_profile(pid, r):
             # unanchored custom patterns: `match` anchors them at the start of the parameters, a
             # pattern found later in the text must not trigger the action
             cfg["at"] = [("ExcludeRegion", "off", "disable_exclusion"), ("ExcludeRegion", "on", "enable_exclusion")]
+    if pid in ("C01", "C03", "C04", "C05", "C06") and r.random() < 0.25:
+        opts["delregion"] = True        # regions deleted through the API while the program runs
     if r.random() < 0.3:
         opts["later_regions"] = [("R", "late%d" % i, 28.0 + 10 * i, 28.0, 33.0 + 10 * i, 33.0) for i in range(2)]
         opts["addregion"] = True
@@ -83,7 +85,7 @@ def filter_profile(pid, r):
         ops = gen.gen_episode_path(r, regions, opts)
     else:
         ops = gen.gen_path(r, regions, opts)
-    evs = gen.encode_path(ops)
+    evs = gen.encode_path(ops, nolead=(r.random() < 0.2))
     if pid == "C09":
         from . import suites
         for _ in range(r.randint(0, 8)):
